@@ -55,7 +55,8 @@ def run_case(scn, drv):
         r['observed'] = {'value': float(rec['res'].value), 'assets_with_cash_flow': nz}
     if scn.get('mode') == 'split':
         try:
-            rs = pf.setup_split(scn, pf.split_interval(scn, rec['tg']))
+            # on the SAME portfolio / asset / grid objects that were just optimised monolithically
+            rs = pf.setup_split(scn, pf.split_interval(scn, rec['tg']), objects=(rec['portf'], rec['tg'], rec['prices']))
             pf.solve_rec(rs)
             feats.append('split')
             r['evaluated'] += 1
@@ -63,4 +64,20 @@ def run_case(scn, drv):
                 r['violations'] += pf.orc_value_accounting(rs, 'split', pf.asset_blocks(rs))
         except Exception as e:
             feats.append('split-error:' + impl.err_class(e))
+    # the same asset objects in a second portfolio with another order (same sizes, other variable layout)
+    if len(scn['assets']) >= 2 and not isinstance(rec.get('res'), str):
+        try:
+            import eaopack as eao
+            assets2 = list(reversed(rec['portf'].assets))
+            rec3 = {'portf': eao.Portfolio(assets2), 'tg': rec['tg'], 'prices': rec['prices'], 'scn': scn}
+            with impl.Quiet(), impl.Capture(rec3['portf']) as cap:
+                rec3['op'] = rec3['portf'].setup_optim_problem(rec['prices'], rec['tg'])
+            rec3['captured'] = {k: v[-1] for k, v in cap.caught.items()}
+            pf.solve_rec(rec3)
+            r['evaluated'] += 1
+            feats.append('same-objects-reordered')
+            if not isinstance(rec3['res'], str):
+                r['violations'] += pf.orc_value_accounting(rec3, 'reordered', pf.asset_blocks(rec3))
+        except Exception as e:
+            feats.append('reorder-error:' + impl.err_class(e))
     return r
